@@ -96,6 +96,9 @@ structure RewriteTable where
   /-- the operator `and_` / `or_` hand to `chained_logic` -/
   andOp : BinCtor
   orOp : BinCtor
+  /-- the operator `SymbolicExpression.__and__` / `__or__` apply to `(self, other)` (`a & b`, `a | b`) -/
+  ampOp : BinCtor
+  barOp : BinCtor
   /-- `not_(c)` returns `c._invert_()` (otherwise `Not(c)`) -/
   notInverts : Bool
   /-- the class `exists(v, c)` / `for_all(v, c)` construct -/
@@ -123,6 +126,8 @@ def rewrites : RewriteTable where
   fold := .leftNested
   andOp := .and
   orOp := .optOr
+  ampOp := .and
+  barOp := .optOr
   notInverts := true
   existsCtor := .exists_
   forAllCtor := .forAll
@@ -242,7 +247,7 @@ def foldWith (m : FoldMode) (f : Expr → Expr → Expr) (first : Expr) (rest : 
 /-! ### surface expressions with the whole construction vocabulary (n-ary `and_` / `or_`, `in_`) -/
 
 mutual
-/-- expressions as the user writes them: `and_(c1, …, cn)`, `or_(c1, …, cn)` (n ≥ 1), `not_`, `exists`, `for_all`,
+/-- expressions as the user writes them: `and_(c1, …, cn)`, `or_(c1, …, cn)` (n ≥ 1), `l & r`, `l | r`, `not_`, `exists`, `for_all`,
 `contains(container, item)`, `in_(item, container)`, comparisons, conditions that are attribute chains, `HasType` -/
 inductive Surface where
   | cmp (op : CmpOp) (l r : Term)
@@ -252,6 +257,8 @@ inductive Surface where
   | hasType (t : Term) (cls : Nat)
   | andN (first : Surface) (rest : SList)
   | orN (first : Surface) (rest : SList)
+  | amp (l r : Surface)      -- `l & r`
+  | bar (l r : Surface)      -- `l | r`
   | not (e : Surface)
   | exists_ (v : VarId) (e : Surface)
   | forAll (v : VarId) (e : Surface)
@@ -270,6 +277,8 @@ def buildWith (t : RewriteTable) : Surface → Expr
   | .hasType x c => .hasType x c
   | .andN f r => foldWith t.fold (mkBin t.orRule t.andOp) (buildWith t f) (buildListWith t r)
   | .orN f r => foldWith t.fold (mkBin t.orRule t.orOp) (buildWith t f) (buildListWith t r)
+  | .amp l r => mkBin t.orRule t.ampOp (buildWith t l) (buildWith t r)
+  | .bar l r => mkBin t.orRule t.barOp (buildWith t l) (buildWith t r)
   | .not e => notWith t (buildWith t e)
   | .exists_ v e => t.existsCtor.mk v (buildWith t e)
   | .forAll v e => t.forAllCtor.mk v (buildWith t e)
@@ -335,6 +344,7 @@ def okOrRule (o : OrRule) : Bool :=
 /-- **RewritesOk**: the decidable check a regenerated table has to pass. -/
 def RewritesOk (t : RewriteTable) : Bool :=
   okOrRule t.orRule && t.fold != .reversedNested && t.andOp == .and && t.orOp == .optOr &&
+  t.ampOp == .and && t.barOp == .optOr &&
   t.existsCtor == .exists_ && t.forAllCtor == .forAll && !t.containsSwapped && !t.inSwapped &&
   okComparator t.invComparator && okTerm t.invTerm && okInvAnd t.invAnd && okInvOr t.invElseIf && okInvOr t.invUnion &&
   okInvNot t.invNot && okInvExists t.invExists && okInvForAll t.invForAll
